@@ -92,6 +92,51 @@ def shared_name_permutations(v):
     return n
 
 
+def typo_permutations(v):
+    """a failure is an outcome too: a word that is a slip of a command name (or a flag that is a slip of a declared one)
+    among valid named occurrences of the level; moving those around it must not change the message"""
+    hbin = build_harness()
+    defs = []
+    for i in range(2):
+        sub = D.level([D.sw("s0", "-x")], D.NOTAIL)
+        cmds = [D.cmd("build", sub), D.cmd("test", D.level([], D.NOTAIL))]
+        root = D.level([D.sw("o1", "-v", "--verbose"), D.ar("o2", "opt", "str", "--cfg"), D.rf("o3", "count", "-q")],
+                       D.cmdtail(cmds, optional=bool(i)))
+        defs.append(D.mkdef(f"typo{i}", root, maxlen=1))
+    dpath = os.path.join(WORK, f"C03-{v.tier}-typo-defs.ndjson")
+    D.write_ndjson(dpath, defs)
+    cpath = os.path.join(WORK, f"C03-{v.tier}-typo-cases.ndjson")
+    n = 0
+    with open(cpath, "w") as w:
+        for d in defs:
+            for slip in (["biuld"], ["tset"], ["--verbos"], ["--cgf=1"]):
+                for extra in ([["-v"]], [["-v"], ["-q"]], [["--cfg", "1"]], [["--cfg=1"], ["-q"], ["-q"]]):
+                    if slip[0].startswith("--verbos") and ["-v"] in extra:
+                        continue
+                    items = [slip] + extra
+                    seen = set()
+                    for p in itertools.permutations(range(len(items))):
+                        argv = [x for k in p for x in items[k]]
+                        if tuple(argv) in seen:
+                            continue
+                        seen.add(tuple(argv))
+                        w.write(json.dumps({"def": d["id"], "argv": argv, "grp": f"{d['id']}|{slip}|{extra}"}) + "\n")
+                        n += 1
+    dump = os.path.join(WORK, f"C03-{v.tier}-typo-obs.ndjson")
+    run_replay(hbin, dpath, cpath, os.path.join(WORK, f"C03-{v.tier}-typo-mm.ndjson"), dump=dump)
+    base = {}
+    for r in read_ndjson(dump):
+        g = {k: r["got"].get(k) for k in ("class", "value", "kind", "text")}
+        if r["grp"] not in base:
+            base[r["grp"]] = (g, r)
+        elif g != base[r["grp"]][0]:
+            b, br = base[r["grp"]]
+            v.report({"rule": "permutation_changes_outcome", "orig": b["class"], "perm": g["class"], "family": "slip_of_a_name",
+                      "text_differs": g.get("text") != b.get("text")},
+                     {"def": r["def"], "argv_bytes": r["argv_bytes"], "orig_argv": br["argv_bytes"], "expect": br["got"], "got": r["got"]})
+    return n
+
+
 def conflict_permutations(v):
     """a failure is an outcome too: two mutually exclusive branches typed inside a subcommand that is not the first item of
     the line; moving an unrelated switch of that level around them (their own order kept) must not change the message"""
@@ -150,6 +195,7 @@ def run(v):
     cov = merge_cov(cov, gcov, "groupline")
     cov["shared_name_permutations"] = shared_name_permutations(v)
     cov["conflict_permutations"] = conflict_permutations(v)
+    cov["typo_permutations"] = typo_permutations(v)
     cov["permuted_pairs_compared_on_impl"] = v.info.get("permuted_pairs", 0)
     cov["rule"] = ("SwapCommutes is checked by TLC in every reachable state (every exchange of two neighbouring occurrences "
                    "feeding different fields); all lines, hence all permutations up to maxlen, are replayed; the driver "
